@@ -247,6 +247,9 @@ def _run_one(prog: Program, report: Report, g) -> int:
                 else:
                     text = one_line(t)
                 texts = [text]
+                if g.kind.startswith("arg:"):
+                    for d in (1, 2, 3):
+                        texts.append(one_line(v.res.expr(args[k], d)))
                 if g.kind in ("stmt", "ret") and isinstance(t, ast.stmt) and getattr(t, "value", None) is not None:
                     for d in (1, 2, 3):
                         rv = one_line(v.res.expr(t.value, d))  # type: ignore[attr-defined]
